@@ -16,6 +16,11 @@ func (l *libModel) onZeroOpaque(e *Exec, st *State, t types.Type, r *Term) {
 	// zero values of library structs with a ghost model
 	name := ""
 	switch typeKey(t) {
+	case "time.Time":
+		// time.Time{} is the zero instant (disables a deadline)
+		if e.prog.specs.lookupFunc("timezero", "") != nil {
+			st.assume(mkApp("spec!timezero", SBool, r))
+		}
 	case "bytes.Buffer":
 		name = "blen"
 	case "strings.Builder":
